@@ -36,8 +36,8 @@ class Minimal(object):
 
 
 def outcome(fn, project):
-    """Results of fn() projected, or "raised <class>", or "nonterminating" (step watchdog of filllib)."""
-    st, val = fl.guarded(lambda: [project(v) for v in fn()], limit=150000, wall=60.0)
+    """Results of fn() projected, or "raised <class>", or "nonterminating" (generous wall-clock watchdog)."""
+    st, val = fl.timed(lambda: [project(v) for v in fn()], wall=20.0)
     if st == "ok":
         return val
     if st == "hang":
@@ -400,7 +400,7 @@ def run(ctx):
     ctx.mc("FillSeq", "FillSeq_cover.cfg", coverage=True, must_cover=actions)
     if ctx.thorough:
         ctx.mc("FillSeq", "FillSeq_wide.cfg")
-        ctx.mc("FillSeq", "FillSeq_sim.cfg", simulate=60000, depth=20, workers=8)
+        ctx.mc("FillSeq", "FillSeq_deep.cfg")       # three pre elements
     mini = Minimal(ctx)
     recs = ctx.export("FillSeq", "FillSeq_%s_export.cfg" % tag, min_records=1000)
     if ctx.thorough:
@@ -422,7 +422,8 @@ def run(ctx):
     real = record_real_kinds(ctx, mini, table)
     ctx.trace_check("Trace_Adapters", "Trace_Adapters.cfg", real,
                     lambda r: "%s:%s:%s" % (r["adapter"], r["arg"], r["kind"]))
-    ctx.binding_demo("Trace_Adapters", "Trace_Adapters.cfg", real, lambda r: dict(r, ok=not r["ok"]))
+    ctx.binding_demo("Trace_Adapters", "Trace_Adapters.cfg", real,
+                     lambda r: dict(r, ok=not r["ok"]) if r["adapter"] == "Run" else None)
     rnd = random.Random(ctx.seed)
     trace = record_random(ctx, mini, rnd, 2500 if ctx.thorough else 500)
     ctx.trace_check("Trace_FillSeq", "Trace_FillSeq.cfg", trace,
